@@ -188,6 +188,7 @@ func (e *Exec) probe(name string)     { e.Stats.Probes[name]++ }
 func (e *Exec) checked(family string) { e.Stats.Checks[family]++ }
 
 var errCrashed = errors.New("simulated crash")
+var errAbandoned = errors.New("operation abandoned in mid-flight")
 
 // invoke runs one public clover call under recover, with the op's fault/crash
 // plan armed when primary is true.
@@ -197,6 +198,9 @@ func (e *Exec) invoke(primary bool, f func() error) (err error) {
 		e.Ctl.FaultAt = e.cur.Fault
 		e.Ctl.CrashAt = e.cur.Crash
 		e.Ctl.CrashAfter = e.cur.CrashPost
+		if e.cur.Note != "abandon-cb" {
+			e.Ctl.PanicAt = e.cur.Abandon
+		}
 	}
 	e.Ctl.BeginOp()
 	e.checked("public-call")
@@ -204,6 +208,16 @@ func (e *Exec) invoke(primary bool, f func() error) (err error) {
 		if r := recover(); r != nil {
 			if _, ok := r.(wrap.CrashSignal); ok {
 				err = errCrashed
+				return
+			}
+			if _, ok := r.(wrap.AbandonSignal); ok {
+				// the goroutine has unwound through clover's deferred calls: the
+				// transaction it had open must be gone
+				e.Ctl.ClearPlan()
+				err = errAbandoned
+				if e.Ctl.TxOpen != 0 || e.Ctl.CursorsOpen != 0 {
+					e.fail([]string{"C05", "C04"}, "C05/abandoned-tx-left-open", fmt.Sprintf("an operation abandoned in mid-flight (its goroutine unwound) left %d store transaction(s) and %d cursor(s) open: the handle is wedged", e.Ctl.TxOpen, e.Ctl.CursorsOpen), nil)
+				}
 				return
 			}
 			props := []string{"C20"}
@@ -402,6 +416,30 @@ func (e *Exec) judge(err error, want string, okProps []string, what string) outc
 	e.lastWant = want
 	if errors.Is(err, errCrashed) {
 		return outCrashed
+	}
+	if errors.Is(err, errAbandoned) {
+		if e.V != nil {
+			return outBad
+		}
+		// abandoned before commit: entirely absent, and everything still consistent
+		e.checked("abandon")
+		e.Stats.Fired["abandon"]++
+		if e.Ctl.WritesBeforeFire > 0 {
+			e.probe("abandon-with-writes-in-flight")
+		}
+		e.compareAllAs([]string{"C05"}, "C05/abandoned-op-left-trace", what+" (abandoned in mid-flight)")
+		if e.V == nil {
+			e.Audit()
+			if e.V != nil {
+				e.V.Props = append([]string{"C05"}, e.V.Props...)
+				e.V.Rule = "C05/abandoned-op-left-trace(" + e.V.Rule + ")"
+			}
+		}
+		if e.V != nil {
+			return outBad
+		}
+		e.lastFailedOp = e.opIdx
+		return outFailed
 	}
 	e.obs("%s -> %s", what, errClass(err))
 	if e.V != nil {
